@@ -276,6 +276,8 @@ class HTMLSerializer(object):
                 doctype = "<!DOCTYPE %s" % token["name"]
 
                 if token["publicId"]:
+                    if token["publicId"].find(">") >= 0:
+                        self.serializeError("Public identifier contains a > character")
                     if token["publicId"].find('"') >= 0:
                         if token["publicId"].find("'") >= 0:
                             self.serializeError("Public identifier contains both single and double quote characters")
@@ -286,6 +288,8 @@ class HTMLSerializer(object):
                 elif token["systemId"]:
                     doctype += " SYSTEM"
                 if token["systemId"]:
+                    if token["systemId"].find(">") >= 0:
+                        self.serializeError("System identifier contains a > character")
                     if token["systemId"].find('"') >= 0:
                         if token["systemId"].find("'") >= 0:
                             self.serializeError("System identifier contains both single and double quote characters")
